@@ -182,7 +182,59 @@ def run_schedules(args):
     return part
 
 
+def run_with_statement(mode):
+    """Reporting reaches the recorder also when it uses the writer as a context manager: an error raised inside the
+    `with` block (by the library for a failed/refused call, or by the recorder itself) leaves the block as an
+    exception; the writer's own __exit__ must not swallow it."""
+    import digital_rf as drf
+
+    part = core.new_part()
+    top = core.new_scratch()
+    cfg = rf.Cfg(n=10, d=3, fc=1000, sc=2, start=rf.first_sample_of_ms(1394333998000, 10, 3), **U.MODES[mode])
+    case = {"with_statement": mode}
+
+    class Boom(Exception):
+        pass
+
+    try:
+        for what in ("recorder_error", "refused_write", "write_after_failure"):
+            chdir = os.path.join(top, what, "ch0")
+            os.makedirs(chdir)
+            propagated = None
+            try:
+                with rf.open_writer(drf, chdir, cfg) as w:
+                    w.rf_write(rf.make_values(cfg, 0, cfg["start"], 5))  # a first file has been started
+                    if what == "recorder_error":
+                        raise Boom("recorder's own error")
+                    elif what == "refused_write":
+                        w.rf_write(rf.make_values(cfg, 0, cfg["start"], 2), 1)  # into the past: refused
+                    else:
+                        # the file the next write needs already exists under its final name: the C library refuses
+                        k = cfg["start"] + 40
+                        fn = os.path.join(chdir, rf.file_relpath(k, cfg))
+                        os.makedirs(os.path.dirname(fn), exist_ok=True)
+                        open(fn, "wb").close()
+                        w.rf_write(rf.make_values(cfg, 0, k, 2), 40)
+                propagated = False
+            except Boom:
+                propagated = True
+            except Exception:  # noqa: BLE001
+                propagated = True
+            part["evaluations"] += 1
+            part["outcomes"]["with:%s:%s" % (what, "propagated" if propagated else "swallowed")] += 1
+            if not propagated:
+                part["violations"].append(core.Violation({"class": "with_statement_swallows_error", "what": what}, dict(case, what=what),
+                                                         "an exception raised inside `with DigitalRFWriter(...)` (%s) did not leave the with statement" % what))
+        part["traces"] += 1
+        part["states"].add(core.canon(("with", mode)))
+    finally:
+        core.rm(top)
+    return part
+
+
 def replay(case):
+    if "with_statement" in case:
+        return [(v["key"], v["detail"]) for v in run_with_statement(case["with_statement"])["violations"]]
     os.environ["VERIF_SEED"] = str(case.get("seed", 0))
     item = (case["cfg"], [tuple(o) for o in case["ops"]], case.get("label", "replay"))
     part = run_schedules((item, [(case["fault_at"], case["errno"], case["persist"], case.get("fault_at2", -1))]))
@@ -233,5 +285,7 @@ def main(tier):
     rot = core.seed() % len(jobs)
     jobs = jobs[rot:] + jobs[:rot]
     for part in core.pmap(run_schedules, jobs, chunksize=1, isolate=False):
+        chk.merge(part)
+    for part in core.pmap(run_with_statement, ["gapped", "cont"], chunksize=1):
         chk.merge(part)
     return chk.finish()
